@@ -2097,6 +2097,23 @@ class Folder:
 
                         return _mk(dims)
                 return 0 if short == "zeros" else 1  # a constant tensor of any shape, as a broadcasting scalar
+            if short == "full" and nm == "torch.full" and self.materialise and len(node.args) == 2 and all(k.arg in ("dtype", "device") for k in node.keywords):
+                dims, fv = self.fold(node.args[0]), self.fold(node.args[1])
+                dims = list(dims) if isinstance(dims, (list, tuple)) else [dims]
+                dt_ = next((unparse(k.value).split(".")[-1] for k in node.keywords if k.arg == "dtype"), None)
+                if not all(isinstance(d, int) and not isinstance(d, bool) and 0 <= d <= 4096 for d in dims) or isinstance(fv, (list, bool)) or not isinstance(fv, (int, float)):
+                    raise Unfoldable("torch.full: sizes / fill value")
+                if dt_ in ("long", "int64", "int32", "int", "int16", "int8", "uint8"):
+                    fv = int(fv)
+                elif dt_ in ("float", "float32", "float64", "double"):
+                    fv = float(fv)
+                elif dt_ is not None:
+                    raise Unfoldable(f"torch.full: dtype {dt_}")
+
+                def _mkf(ds):
+                    return [_mkf(ds[1:]) for _ in range(ds[0])] if ds else fv
+
+                return _mkf(dims)
             if short == "full_like" and len(node.args) == 2 and all(k.arg in ("dtype", "device") for k in node.keywords):
                 # the fill value is created in the dtype of the first argument (or the dtype given): an integer tensor
                 # truncates a fractional value, a boolean one keeps only its truth value
